@@ -83,8 +83,12 @@ def run(ck):
             t = ' '.join(map(str, k))
             if k[0] in ('GtE', 'Gt') and set(k[1:]) == {i1, i2}:
                 names[k] = 'DUP' if (k[0] == 'GtE' and k[1] == i1) else ('DUPX', k)
-            elif k[0] == 'In' and 'non_edges' in k[2] and i1 in k[1] and i2 in k[1] and 'frozenset' in k[1]:
-                names[k] = 'NE'
+            elif k[0] == 'In' and k[2] == 'non_edges':
+                # the non-bonds are pairs of node keys: the tested pair must be the two *translated* indices (the tree's row numbers differ from the
+                # node keys as soon as one atom was left out of the tree)
+                keyed = ['idx_to_nodenum[{}]'.format(i1), 'idx_to_nodenum[{}]'.format(i2)]
+                names[k] = 'NE' if k[1] in ('frozenset(({}, {}))'.format(*keyed), 'frozenset(({1}, {0}))'.format(*keyed),
+                                            'frozenset([{}, {}])'.format(*keyed), 'frozenset([{1}, {0}])'.format(*keyed)) else ('NEX', k)
             elif k[0] == 'Eq' and "'H'" in k[1:] and "['element']" in t:
                 other = [x for x in k[1:] if x != "'H'"][0]
                 names[k] = 'H1' if i1 in other and i2 not in other else ('H2' if i2 in other and i1 not in other else None)
